@@ -47,8 +47,12 @@ func runRT(r *ev.Recorder, c *rtCase) (string, string) {
 		}
 		other = od.GetPK()
 	}
+	var held, heldCopy []byte // a sealed message the caller still holds must not change when the key signs again
 	for i, m := range c.Msgs {
 		tag := fmt.Sprintf("message %d (%d bytes)", i, len(m))
+		if held != nil && !bytes.Equal(held, heldCopy) {
+			return "seal/changes-after-later-call", fmt.Sprintf("the sealed message returned for message %d was modified by a later Sign/Seal call", i-1)
+		}
 		m0 := append([]byte{}, m...)
 		var sig [dilithium.CryptoBytes]byte
 		var sealed []byte
@@ -98,6 +102,10 @@ func runRT(r *ev.Recorder, c *rtCase) (string, string) {
 		}
 		_ = attempts
 		r.Count(lenClass(len(m)), 1)
+		held, heldCopy = sealed, append([]byte{}, sealed...)
+	}
+	if held != nil && !bytes.Equal(held, heldCopy) {
+		return "seal/changes-after-later-call", "the last sealed message was modified after it was returned"
 	}
 	return "", ""
 }
